@@ -110,6 +110,14 @@ def check_triangles(case, ctx):
     obj.sample_size_u, obj.sample_size_v = nu, nv
     ctx.check([obj.sample_size_u, obj.sample_size_v] == [nu, nv], "sample-size", "sample sizes %r" % ([obj.sample_size_u, obj.sample_size_v],))
     if case["via"] == "surface":
+        if nu % 2:
+            # a moved copy of the surface (another surface) is meshed first, with another density
+            from geomdl import operations
+            other = operations.translate(obj, [8.0, -4.0, 2.0])
+            other.sample_size_u, other.sample_size_v = 3, 4
+            other.tessellate()
+            ctx.check(len(other.vertices) == 12, "vertex-count", "a translated copy meshed with 3x4 samples has %d vertices" % len(other.vertices))
+            ctx.label("moved-copy-meshed-first")
         obj.tessellate(vertex_spacing=k)
         verts, faces = obj.vertices, obj.faces
     else:
@@ -128,6 +136,17 @@ def check_triangles(case, ctx):
     byid, edges = _mesh_validity(ctx, verts, faces, 3, what)
     _check_disc(ctx, verts, faces, edges, byid, what)
     _on_surface(ctx, R, verts, what)
+    if case["via"] == "surface" and nv % 2 and d["size"][1] > d["degree"][1] + 1:
+        # the same surface gets another v knot vector (first interior knot moved) and is meshed again: the mesh follows
+        kvv = list(build.kvs_of(obj)[1])
+        pv_ = d["degree"][1]
+        kvv[pv_ + 1] = (kvv[pv_] + kvv[pv_ + 1]) / 2.0
+        obj.knotvector_v = kvv
+        obj.tessellate(vertex_spacing=k)
+        R2 = build.exact(obj)
+        ctx.label("meshed-again-after-knot-change")
+        ctx.check(len(obj.vertices) == mu * mv, "vertex-count", "%s, second mesh after a knot vector change: %d vertices" % (what, len(obj.vertices)))
+        _on_surface(ctx, R2, obj.vertices, what + " (second mesh after a knot vector change)")
 
 
 # ------------------------------------------------------------------------------------------------ quads
